@@ -21,21 +21,21 @@ structure CaseOK (rules : List Rule) (q : Request) : Prop where
       rule values we ask the group condition of them directly -/
   probedRd : ∀ r ∈ rules, r.isRedirect = true → GroupProbed r q
 
-private theorem ids_sub {rules S : List Rule} (h : IdsIdentify rules) (hs : ∀ f ∈ S, f ∈ rules) :
+theorem ids_sub {rules S : List Rule} (h : IdsIdentify rules) (hs : ∀ f ∈ S, f ∈ rules) :
     IdsIdentify S := fun f hf g hg e => h f (hs f hf) g (hs g hg) e
 
-private theorem live_sub (rules : List Rule) : ∀ f ∈ live rules, f ∈ rules := by
+theorem live_sub (rules : List Rule) : ∀ f ∈ live rules, f ∈ rules := by
   intro f hf; unfold live at hf; exact (List.mem_filter.1 hf).1
 
 def pickC (rules : List Rule) (c : Cat) : List Rule := (live rules).filter (fun f => cat f == c)
 
-private theorem pick_sub (rules : List Rule) (c : Cat) : ∀ f ∈ pickC rules c, f ∈ rules := by
+theorem pick_sub (rules : List Rule) (c : Cat) : ∀ f ∈ pickC rules c, f ∈ rules := by
   intro f hf; unfold pickC at hf; exact live_sub rules f (List.mem_filter.1 hf).1
 
-private theorem cat_of_pick {rules : List Rule} {c : Cat} {f : Rule} (hf : f ∈ pickC rules c) : cat f = c := by
+theorem cat_of_pick {rules : List Rule} {c : Cat} {f : Rule} (hf : f ∈ pickC rules c) : cat f = c := by
   unfold pickC at hf; simpa using (List.mem_filter.1 hf).2
 
-private theorem cat_not_rp {f : Rule} {c : Cat} (h : cat f = c) (hc : c ≠ .removeparam) (hcsp : c ≠ .csp) :
+theorem cat_not_rp {f : Rule} {c : Cat} (h : cat f = c) (hc : c ≠ .removeparam) (hcsp : c ≠ .csp) :
     f.isRemoveparam = false := by
   cases hr : f.isRemoveparam with
   | false => rfl
@@ -46,7 +46,7 @@ private theorem cat_not_rp {f : Rule} {c : Cat} (h : cat f = c) (hc : c ≠ .rem
     | true => simp [hcs] at h; exact hcsp h.symm
     | false => simp [hcs, hr] at h; exact hc h.symm
 
-private theorem cat_important_flag {f : Rule} (h : cat f = .important) : f.isImportant = true := by
+theorem cat_important_flag {f : Rule} (h : cat f = .important) : f.isImportant = true := by
   unfold cat at h
   split at h; · cases h
   split at h; · cases h
@@ -57,7 +57,7 @@ private theorem cat_important_flag {f : Rule} (h : cat f = .important) : f.isImp
   · split at h; · cases h
     split at h <;> cases h
 
-private theorem cat_blocking_not_important {f : Rule} (h : cat f = .tagged ∨ cat f = .normal) :
+theorem cat_blocking_not_important {f : Rule} (h : cat f = .tagged ∨ cat f = .normal) :
     f.isImportant = false := by
   cases hi : f.isImportant with
   | false => rfl
@@ -71,7 +71,7 @@ private theorem cat_blocking_not_important {f : Rule} (h : cat f = .tagged ∨ c
     simp [hi] at h
 
 /-- lookups in a category list built without optimisation -/
-private theorem cat_lookup (rules S : List Rule) (q : Request) (tg : List Str) (ok : CaseOK rules q)
+theorem cat_lookup (rules S : List Rule) (q : Request) (tg : List Str) (ok : CaseOK rules q)
     (hs : ∀ f ∈ S, f ∈ rules) (hnrp : ∀ f ∈ S, f.isRemoveparam = false) :
     (∀ f, f ∈ (Index.build S false).checkAll q tg ↔ f ∈ hits S q tg) ∧
     (((Index.build S false).check q tg).isSome = !(hits S q tg).isEmpty) ∧
@@ -84,7 +84,7 @@ private theorem cat_lookup (rules S : List Rule) (q : Request) (tg : List Str) (
   unfold Index.check at hf
   exact List.mem_of_mem_head? (by rw [hf]; rfl)
 
-private theorem hits_tagged_prefilter (S : List Rule) (q : Request) (T : List Str)
+theorem hits_tagged_prefilter (S : List Rule) (q : Request) (T : List Str)
     (hcat : ∀ f ∈ S, f.tag.isSome = true) :
     hits (S.filter (tagEnabled T)) q T = hits S q T := by
   unfold hits
@@ -96,7 +96,7 @@ private theorem hits_tagged_prefilter (S : List Rule) (q : Request) (T : List St
   | none => rw [ht] at this; cases this
   | some t => simp [tagOk, tagEnabled, ht]
 
-private theorem cat_tagged_tag {f : Rule} (h : cat f = .tagged) : f.tag.isSome = true := by
+theorem cat_tagged_tag {f : Rule} (h : cat f = .tagged) : f.tag.isSome = true := by
   unfold cat at h
   split at h; · cases h
   split at h; · cases h
@@ -108,7 +108,7 @@ private theorem cat_tagged_tag {f : Rule} (h : cat f = .tagged) : f.tag.isSome =
   · split at h <;> cases h
 
 /-- the reference rewrite only evaluates `removed` on the segments of this URL's query -/
-private theorem spec_congr (url : Str) (n1 n2 : List Str)
+theorem spec_congr (url : Str) (n1 n2 : List Str)
     (h : ∀ pre qs, Removeparam.splitOnce '?' (url.takeWhile (· != '#')) = some (pre, qs) →
       ∀ seg ∈ qs.splitOn '&', Removeparam.removed n1 seg = Removeparam.removed n2 seg) :
     Removeparam.spec false url n1 = Removeparam.spec false url n2 := by
@@ -128,7 +128,7 @@ private theorem spec_congr (url : Str) (n1 n2 : List Str)
       apply List.filter_congr; intro x hx; rw [hseg x hx]
     rw [hany, hfil]
 
-private theorem removed_iff (names : List Str) (seg : Str) :
+theorem removed_iff (names : List Str) (seg : Str) :
     Removeparam.removed names seg = true ↔ ∃ n ∈ names, Removeparam.removed [n] seg = true := by
   unfold Removeparam.removed
   split
@@ -140,7 +140,7 @@ private theorem removed_iff (names : List Str) (seg : Str) :
     · rintro ⟨n, hn, hv, rfl⟩; exact ⟨hv, hn⟩
   · simp
 
-private theorem present_of_removed (url name pre qs seg : Str)
+theorem present_of_removed (url name pre qs seg : Str)
     (hq : Removeparam.splitOnce '?' (url.takeWhile (· != '#')) = some (pre, qs))
     (hseg : seg ∈ qs.splitOn '&') (hr : Removeparam.removed [name] seg = true) :
     Removeparam.apply url [name] ≠ none := by
@@ -154,21 +154,23 @@ private theorem present_of_removed (url name pre qs seg : Str)
     simp only [List.any_eq_true]; exact ⟨seg, hseg, hr⟩
   simp [this]
 
-private theorem mem_redirectCands (m : List Rule) (c : Str × Int) :
-    c ∈ redirectCands m ↔ ∃ mo, (∃ f ∈ m, f.isException = false ∧ f.modifier = some mo) ∧
-      (¬ ∃ g ∈ m, g.isException = true ∧ g.modifier = some mo) ∧ parseRedirect mo = c := by
+theorem mem_redirectCands (m : List Rule) (c : Str × Int) :
+    c ∈ redirectCands m ↔ (∃ mo, (∃ f ∈ m, f.isException = false ∧ f.modifier = some mo) ∧ parseRedirect mo = c) ∧
+      ¬ (∃ g ∈ m, ∃ mg, g.isException = true ∧ g.modifier = some mg ∧ (parseRedirect mg).1 = c.1) := by
   unfold redirectCands
   simp only [List.mem_map, List.mem_filter, List.mem_filterMap, Bool.not_eq_true', List.contains_eq_mem,
     decide_eq_false_iff_not, Bool.not_eq_eq_eq_not, Bool.not_true]
   constructor
-  · rintro ⟨mo, ⟨⟨f, ⟨hf, he⟩, hm⟩, hne⟩, rfl⟩
-    refine ⟨mo, ⟨f, hf, he, hm⟩, ?_, rfl⟩
-    rintro ⟨g, hg, hge, hgm⟩; exact hne ⟨g, ⟨hg, hge⟩, hgm⟩
-  · rintro ⟨mo, ⟨f, hf, he, hm⟩, hne, rfl⟩
-    refine ⟨mo, ⟨⟨f, ⟨hf, he⟩, hm⟩, ?_⟩, rfl⟩
-    rintro ⟨g, ⟨hg, hge⟩, hgm⟩; exact hne ⟨g, hg, hge, hgm⟩
+  · rintro ⟨⟨mo, ⟨f, ⟨hf, he⟩, hm⟩, rfl⟩, hne⟩
+    refine ⟨⟨mo, ⟨f, hf, he, hm⟩, rfl⟩, ?_⟩
+    rintro ⟨g, hg, mg, hge, hgm, heq⟩
+    exact hne ⟨mg, ⟨g, ⟨hg, hge⟩, hgm⟩, heq⟩
+  · rintro ⟨⟨mo, ⟨f, hf, he, hm⟩, rfl⟩, hne⟩
+    refine ⟨⟨mo, ⟨f, ⟨hf, he⟩, hm⟩, rfl⟩, ?_⟩
+    rintro ⟨mg, ⟨g, ⟨hg, hge⟩, hgm⟩, heq⟩
+    exact hne ⟨g, hg, mg, hge, hgm, heq⟩
 
-private theorem mem_redirectChoices (m : List Rule) (res : Str) :
+theorem mem_redirectChoices (m : List Rule) (res : Str) :
     res ∈ redirectChoices m ↔ ∃ c ∈ redirectCands m, c.1 = res ∧ ∀ c' ∈ redirectCands m, c'.2 ≤ c.2 := by
   unfold redirectChoices
   simp only [List.mem_filterMap]
@@ -187,7 +189,7 @@ private theorem mem_redirectChoices (m : List Rule) (res : Str) :
       simp only [List.all_eq_true, decide_eq_true_eq]; exact hmax
     simp only [this, if_true]
 
-private theorem redirectChoices_congr (A B : List Rule) (h : ∀ f, f ∈ A ↔ f ∈ B) (res : Str) :
+theorem redirectChoices_congr (A B : List Rule) (h : ∀ f, f ∈ A ↔ f ∈ B) (res : Str) :
     res ∈ redirectChoices A ↔ res ∈ redirectChoices B := by
   have hc : ∀ c, c ∈ redirectCands A ↔ c ∈ redirectCands B := by
     intro c; rw [mem_redirectCands, mem_redirectCands]; simp only [h]
@@ -195,7 +197,7 @@ private theorem redirectChoices_congr (A B : List Rule) (h : ∀ f, f ∈ A ↔ 
   simp only [hc]
 
 /-- the combination step in terms of which lookups succeeded -/
-private theorem assemble_eq (oi ot on oe : Option Rule) (rd rw : Option Str)
+theorem assemble_eq (oi ot on oe : Option Rule) (rd rw : Option Str)
     (hIm : ∀ f, oi = some f → f.isImportant = true)
     (hGm : ∀ f, ot = some f → f.isImportant = false)
     (hNm : ∀ f, on = some f → f.isImportant = false) :
@@ -215,6 +217,48 @@ private theorem assemble_eq (oi ot on oe : Option Rule) (rd rw : Option Str)
       cases on with
       | some f => cases oe <;> simp [hNm f rfl]
       | none => simp
+
+/-- the removeparam list (never optimised): the names collected through the index give the same
+    rewrite as the names of the rule-by-rule scan -/
+theorem removeparam_lookup (rules : List Rule) (q : Request) (ok : CaseOK rules q) :
+    Removeparam.apply q.originalUrl
+        (((Index.build (pickC rules .removeparam) false).checkAll q []).filterMap (·.modifier)) =
+      Removeparam.spec false q.originalUrl
+        ((hits (pickC rules .removeparam) q []).filterMap (·.modifier)) := by
+  have h1 := Removeparam.rewrite_eq_spec false q.originalUrl
+    (((Index.build (pickC rules .removeparam) false).checkAll q []).filterMap (·.modifier))
+  unfold Removeparam.rewrittenUrl at h1
+  simp only [Bool.false_eq_true, if_false] at h1
+  rw [h1]
+  apply spec_congr
+  intro pre qs hq seg hseg
+  rw [Bool.eq_iff_iff, removed_iff, removed_iff]
+  simp only [List.mem_filterMap]
+  constructor
+  · rintro ⟨n, ⟨f, hf, hfm⟩, hr⟩
+    exact ⟨n, ⟨f, index_sound _ q [] f hf, hfm⟩, hr⟩
+  · rintro ⟨n, ⟨f, hf, hfm⟩, hr⟩
+    refine ⟨n, ⟨f, ?_, hfm⟩, hr⟩
+    have hfp : f ∈ pickC rules .removeparam := by unfold hits at hf; exact (List.mem_filter.1 hf).1
+    have hfr : f ∈ rules := pick_sub rules .removeparam f hfp
+    have hrp : f.isRemoveparam = true := by
+      have hc := cat_of_pick hfp
+      unfold cat at hc
+      split at hc; · cases hc
+      split at hc
+      · assumption
+      · split at hc; · cases hc
+        split at hc; · cases hc
+        split at hc; · cases hc
+        split at hc; · cases hc
+        split at hc <;> cases hc
+    have hpp : paramPresent f q = true := by
+      unfold paramPresent
+      simp only [hfm]
+      have := present_of_removed q.originalUrl n pre qs seg hq hseg hr
+      simpa using this
+    exact index_complete _ q [] f (ids_sub ok.ids (pick_sub rules .removeparam)) ok.zero
+      (ok.probedRp f hfr hrp hpp) hf
 
 /-- what `Blocker.new` + tag operations establish (without optimisation): every category index is
     built from the corresponding category of the loaded rules -/
@@ -312,44 +356,7 @@ theorem check_of_repr (b : Blocker) (rules : List Rule) (T : List Str) (st : Sto
       simp only [hne, Bool.false_eq_true, if_false, Option.bind_some, List.mem_map]
       exact ⟨res, h2, rfl⟩
   -- the rewritten URL
-  have hRw : Removeparam.apply q.originalUrl
-        (((Index.build (pickC rules .removeparam) false).checkAll q []).filterMap (·.modifier)) =
-      Removeparam.spec false q.originalUrl
-        ((hits (pickC rules .removeparam) q []).filterMap (·.modifier)) := by
-    have h1 := Removeparam.rewrite_eq_spec false q.originalUrl
-      (((Index.build (pickC rules .removeparam) false).checkAll q []).filterMap (·.modifier))
-    unfold Removeparam.rewrittenUrl at h1
-    simp only [Bool.false_eq_true, if_false] at h1
-    rw [h1]
-    apply spec_congr
-    intro pre qs hq seg hseg
-    rw [Bool.eq_iff_iff, removed_iff, removed_iff]
-    simp only [List.mem_filterMap]
-    constructor
-    · rintro ⟨n, ⟨f, hf, hfm⟩, hr⟩
-      exact ⟨n, ⟨f, index_sound _ q [] f hf, hfm⟩, hr⟩
-    · rintro ⟨n, ⟨f, hf, hfm⟩, hr⟩
-      refine ⟨n, ⟨f, ?_, hfm⟩, hr⟩
-      have hfp : f ∈ pickC rules .removeparam := by unfold hits at hf; exact (List.mem_filter.1 hf).1
-      have hfr : f ∈ rules := pick_sub rules .removeparam f hfp
-      have hrp : f.isRemoveparam = true := by
-        have hc := cat_of_pick hfp
-        unfold cat at hc
-        split at hc; · cases hc
-        split at hc
-        · assumption
-        · split at hc; · cases hc
-          split at hc; · cases hc
-          split at hc; · cases hc
-          split at hc; · cases hc
-          split at hc <;> cases hc
-      have hpp : paramPresent f q = true := by
-        unfold paramPresent
-        simp only [hfm]
-        have := present_of_removed q.originalUrl n pre qs seg hq hseg hr
-        simpa using this
-      exact index_complete _ q [] f (ids_sub ok.ids (pick_sub rules .removeparam)) ok.zero
-        (ok.probedRp f hfr hrp hpp) hf
+  have hRw := removeparam_lookup rules q ok
   -- combine
   rw [hRw]
   simp only [List.mem_map]
